@@ -90,6 +90,7 @@ REQUIRED = [
 
 _not_comparable = weakref.WeakSet()    # aux need not follow proj_data (by precondition)
 _reported = weakref.WeakSet()          # stale objects already reported (and their derivatives)
+_prec = weakref.WeakKeyDictionary()    # coarsest floating precision upstream of an object
 _state = {"history": None}
 FORM_TOL = 1e-9
 
@@ -115,6 +116,32 @@ def eps_of(obj):
     return float(np.finfo(float).eps)
 
 
+def prec_of(obj):
+    """coarsest eps among the object's dtype and everything it was derived
+    from (astype(float32) followed by a float64 product keeps float32 content)."""
+    try:
+        return max(eps_of(obj), _prec.get(obj, 0.0))
+    except TypeError:
+        return eps_of(obj)
+
+
+def inherit(new, *sources):
+    """provenance (not-comparable, already-reported, precision) of derived objects."""
+    for s in sources:
+        if s is None or s is new:
+            continue
+        try:
+            if s in _not_comparable and getattr(new, "aux_ndims", 0) > 0:
+                _not_comparable.add(new)
+            if s in _reported:
+                _reported.add(new)
+            p = prec_of(s)
+            if p > prec_of(new):
+                _prec[new] = p
+        except TypeError:
+            pass
+
+
 def coherence(obj):
     """-> (status, deviation, tolerance, detail).  status in {'judge', 'skip:<reason>'}."""
     from geometry_tools import projective as P, hyperbolic as H
@@ -134,7 +161,7 @@ def coherence(obj):
         return "skip:aux not comparable (non-form-preserving map upstream)", 0, 0, ""
     if not np.all(np.isfinite(pd)):
         return "skip:non-finite primary data", 0, 0, ""
-    tol = max(1e-7, 1e3 * eps_of(obj))
+    tol = max(1e-7, 1e3 * prec_of(obj))
     try:
         with np.errstate(all="ignore"):
             fresh = cls(pd.copy())
@@ -181,10 +208,7 @@ def make_invariant(run):
         if not isinstance(o, P.ProjectiveObject) or not hasattr(o, "proj_data"):
             return
         if derived_from is not None:
-            if derived_from in _not_comparable and getattr(o, "aux_ndims", 0) > 0:
-                _not_comparable.add(o)
-            if derived_from in _reported:
-                _reported.add(o)
+            inherit(o, derived_from)
         if o in _reported:
             return mon.skip("stale object already reported (or derived from one)")
         status, dev, tol, detail = coherence(o)
@@ -394,10 +418,11 @@ def setup(run):
         res = call.result
         if not isinstance(X, P.ProjectiveObject) or not isinstance(res, P.ProjectiveObject):
             return
-        if X in _reported:
-            _reported.add(res)
+        inherit(res, X)
+        if prec_of(T) > prec_of(res):
+            _prec[res] = prec_of(T)
         if getattr(X, "aux_ndims", 0) > 0 and isinstance(X, (H.Segment, H.TangentVector)):
-            if X in _not_comparable or not conformal(T):
+            if not conformal(T):
                 _not_comparable.add(res)
     attach.wrap_attr(run, P.Transformation, "apply", apply_hook, label="taint:apply")
 
@@ -410,10 +435,7 @@ def setup(run):
             list(src) if isinstance(src, (list, tuple)) else [])
         for s in srcs:
             if isinstance(s, P.ProjectiveObject):
-                if s in _not_comparable:
-                    _not_comparable.add(new)
-                if s in _reported:
-                    _reported.add(new)
+                inherit(new, s)
     attach.wrap_attr(run, P.ProjectiveObject, "_construct_from_object", construct_hook,
                      label="taint:construct")
 
@@ -549,13 +571,11 @@ def apply_step(run, rng, op, obj, model, step):
     case = {"history": _state.get("history"), "step": step}
     if op == "copy":
         new = copy.copy(obj)
-        if obj in _not_comparable:
-            _not_comparable.add(new)
+        inherit(new, obj)
         return new, model, "ok"
     if op == "deepcopy":
         new = copy.deepcopy(obj)
-        if obj in _not_comparable:
-            _not_comparable.add(new)
+        inherit(new, obj)
         return new, model, "ok"
     if op == "class-copy":
         return cls(obj), model, "ok"
@@ -642,9 +662,6 @@ def apply_step(run, rng, op, obj, model, step):
     if op == "stack":
         raw = G.draw(rng, kind, n, shape, nv=model.prim.shape[-2] if "Polygon" in kind else None)
         other = G.build(kind, raw)
-        if obj in _not_comparable:
-            # the partner is comparable: the stacked object inherits the taint
-            pass
         first = bool(rng.integers(0, 2))
         new = cls([obj, other] if first else [other, obj])
         oprim = G.primary(kind, raw)
@@ -673,8 +690,8 @@ def apply_step(run, rng, op, obj, model, step):
         m2 = copy.copy(model)
         m2.prim = np.concatenate([model.prim.reshape((-1,) + ushape),
                                   G.primary(kind, raw).reshape((-1,) + ushape)], axis=0)
-        if obj in _not_comparable and new is not None:
-            _not_comparable.add(new)
+        if new is not None:
+            inherit(new, obj, other)
         if new is None:
             mon.fail("history/combine/returns-None/%s" % kind, "combine returned None", case)
             return obj, model, "violation"
